@@ -784,6 +784,7 @@ def after_fault_in_other_thread(ctx, S):
     block size, an unknown service action ...), catches them and stays alive outside the library; another thread then builds
     every command and decodes every format: it finishes, with what it gets alone.  A thread that never comes back while nothing
     else runs is stuck on something the first thread left behind (its stack is reported)"""
+    import copy
     import sys
     import threading
     import time
@@ -800,10 +801,25 @@ def after_fault_in_other_thread(ctx, S):
     for c in S.COMMANDS.values():
         a = DO.GEN[c.custom](rng)[0] if c.custom else harness.random_args(c, rng, cap=2048)
         jobs.append((c.name, (lambda c=c, a=a: (lambda cmd: bytes(cmd.cdb) + b"/" + bytes(cmd.dataout))(harness.construct(c, c.sets[0], DO.fresh(a) if c.custom else dict(a))))))
+    # (the same families the first thread will be refused in, with valid arguments)
+    pro = S.COMMANDS["PersistentReserveOut"]
+    for i, kind in enumerate(D.TID_KINDS):
+        tid = D.strip_private(D.gen_transport_id(rng, kind, 24))
+        for sa, kw in ((7, {"relative_target_port_id": 1, "transport_id": tid}), (0, {"spec_i_pt": 1, "transport_ids": [tid, tid]})):
+            a = {"service_action": sa, "scope": 0, "pr_type": 1, "_kwargs": dict(kw, reservation_key=1, service_action_reservation_key=2)}
+            jobs.append(("PersistentReserveOut:tid:%s:%d" % (kind, sa), (lambda a=a: (lambda cmd: bytes(cmd.cdb) + b"/" + bytes(cmd.dataout))(harness.construct(pro, "spc", DO.fresh(a))))))
+    for cname in ("ExtendedCopy4", "ExtendedCopy5"):
+        c = S.COMMANDS[cname]
+        for i in range(3):
+            a = DO.GEN[c.custom](rng)[0]
+            jobs.append(("%s:more:%d" % (cname, i), (lambda c=c, a=a: (lambda cmd: bytes(cmd.cdb) + b"/" + bytes(cmd.dataout))(harness.construct(c, "spc", DO.fresh(a))))))
     for name, f in D.FORMATS.items():
         v = f.gen(rng)
         b = bytes(f.encode(v))
         jobs.append(("decode:" + name, (lambda f=f, b=b, v=v: repr(f.lib_decode(b, v)))))
+        if f.builder:
+            d = f.lib_input(v)
+            jobs.append(("build:" + name, (lambda f=f, d=d: bytes(f.lib_build(copy.deepcopy(d))))))
     for name, job in jobs:
         try:
             solo[name] = job()
